@@ -3,7 +3,7 @@
 // 1-4 simulated hosts (processes on one scheduler, simulated MPI) run it on a generated graph with a drawn partitioning
 // policy, execution mode and thread count; every host writes its masters' results with the application's own -output
 // option and the parent compares the union with an independent reference.
-//   -DAPP=1 bfs_push 2 bfs_pull 3 sssp_push 4 sssp_pull 5 cc_push 6 cc_pull
+//   -DAPP=1 bfs_push 2 bfs_pull 3 sssp_push 4 sssp_pull 5 cc_push 6 cc_pull 7 kcore_push 8 kcore_pull
 #include "grwriter.h"
 #include <algorithm>
 #include <functional>
@@ -49,7 +49,7 @@ int main() {
   static const char* pols[] = {"oec", "iec", "hovc", "hivc", "cvc", "cvc-iec", "ginger-o", "ginger-i", "fennel-o", "fennel-i", "sugar-o"};
   int policy = (int)vsim_param("policy", 0, 10);
   int async = (int)vsim_param("async", 0, 1);
-  static const char* appn[] = {"", "bfs_push", "bfs_pull", "sssp_push", "sssp_pull", "cc_push", "cc_pull"};
+  static const char* appn[] = {"", "bfs_push", "bfs_pull", "sssp_push", "sssp_pull", "cc_push", "cc_pull", "kcore_push", "kcore_pull"};
   vsim_note("component", "dist-app=%s %s", appn[APP], async ? "async" : "sync");
   vsim_enable_fault(VF_MSG_DELAY, 0.05, 0.6);
   vsim_enable_fault(VF_IPROBE_MISS, 0.05, 0.5);
@@ -61,7 +61,7 @@ int main() {
   if (policy >= 6) maxn = nhosts >= 3 ? (tier() ? 30 : 14) : (tier() ? 60 : 24);   // the streaming policies exchange state per node: keep their runs inside the real-time watchdog
   gr::Model m = gr::generate(maxn, false);
   if (m.n == 0) { m.n = 1; m.end.assign(1, 0); }
-  bool weighted = APP == 3 || APP == 4, symmetric = APP == 5 || APP == 6;
+  bool weighted = APP == 3 || APP == 4, symmetric = APP >= 5;
   std::vector<gr::Edge> es = m.edges;
   for (auto& e : es) e.data = weighted ? (uint64_t)wl_range(1, wl_chance(10) ? 5000 : 30) : 0;
   if (symmetric) { std::vector<gr::Edge> s2; std::set<std::pair<uint32_t, uint32_t>> seen; for (auto& e : es) { if (e.src == e.dst) continue; auto k = std::minmax(e.src, e.dst); if (!seen.insert({k.first, k.second}).second) continue; s2.push_back({e.src, e.dst, 0}); s2.push_back({e.dst, e.src, 0}); } es = s2; }
@@ -77,6 +77,8 @@ int main() {
   char b1[32], b2[32]; snprintf(b1, sizeof b1, "-startNode=%u", src); snprintf(b2, sizeof b2, "-t=%d", threads_per_host);
   args = {appn[APP], path, std::string("-partition=") + pols[policy], b2, "-runs=1", "-output", "-outputLocation=" + outdir, std::string("-exec=") + (async ? "Async" : "Sync")};
   if (APP <= 4) args.push_back(b1);
+  unsigned kcore = (unsigned)wl_range(1, 5);
+  if (APP >= 7) args.push_back("-kcore=" + std::to_string(kcore));
   if (symmetric) args.push_back("-symmetricGraph"); else args.push_back("-graphTranspose=" + tpath);
   { std::string c; for (auto& a : args) c += a + " "; vsim_note("cmdline", "%s", c.c_str()); }
   vsim_note("plan", "nodes=%u edges=%zu hosts=%d threads=%d policy=%s", m.n, m.edges.size(), nhosts, threads_per_host, pols[policy]);
@@ -104,6 +106,14 @@ int main() {
       bool ok = dist[i] == ~0ull ? g >= INF : g == dist[i];
       if (!ok) vsim_fail("c20.result", "%s from node %u (%u nodes, %zu edges, %d hosts x %d threads, %s, %s): node %u has distance %lu, reference %s%lu", appn[APP], src, m.n, m.edges.size(), nhosts, threads_per_host, pols[policy], async ? "async" : "sync", i, (unsigned long)g, dist[i] == ~0ull ? "unreachable " : "", (unsigned long)(dist[i] == ~0ull ? 0 : dist[i]));
     }
+  } else if (APP >= 7) {
+    // k-core by peeling: a node survives iff it keeps at least k neighbours among the survivors (simple symmetric graph)
+    std::vector<std::vector<uint32_t>> adj(m.n); for (auto& e : m.edges) adj[e.src].push_back(e.dst);
+    std::vector<int> deg(m.n), alive(m.n, 1); for (uint32_t i = 0; i < m.n; i++) deg[i] = (int)adj[i].size();
+    std::vector<uint32_t> q; for (uint32_t i = 0; i < m.n; i++) if (deg[i] < (int)kcore) { alive[i] = 0; q.push_back(i); }
+    while (!q.empty()) { uint32_t u = q.back(); q.pop_back(); for (uint32_t v : adj[u]) if (alive[v] && --deg[v] < (int)kcore) { alive[v] = 0; q.push_back(v); } }
+    for (uint32_t i = 0; i < m.n; i++) if ((got[i] != 0) != (alive[i] != 0))
+      vsim_fail("c20.result", "%s -kcore=%u (%u nodes, %zu edges, %d hosts x %d threads, %s, %s): node %u is reported %s the %u-core, peeling says it is %s", appn[APP], kcore, m.n, m.edges.size(), nhosts, threads_per_host, pols[policy], async ? "async" : "sync", i, got[i] ? "in" : "out of", kcore, alive[i] ? "in" : "out");
   } else {
     std::vector<uint32_t> par(m.n); std::iota(par.begin(), par.end(), 0);
     std::function<uint32_t(uint32_t)> find = [&](uint32_t x) { while (par[x] != x) { par[x] = par[par[x]]; x = par[x]; } return x; };
